@@ -108,6 +108,99 @@ Section IssuanceP.
     - destruct (already_revoked s (idn j)); discriminate.
     - exfalso. exact (H _ _ _ E).
   Qed.
+  (** ---- blind issuance: the issuer's own claims ---- *)
+  Definition known_passes (sch : list claim_schema) (jc : nat * claim) : Prop :=
+    exists t, nth_error sch (fst jc) = Some t /\ passes t (snd jc).
+  (** the last revocation claim in the walk, [d] if there is none *)
+  Definition last_rev (known : list (nat * claim)) (d : option bytes) : option bytes :=
+    fold_left (fun f jc => match snd jc with CRevocation i => Some i | _ => f end) known d.
+
+  Lemma check_known_ok sch known : forall found r,
+    check_known rx_match is_utf8 known sch found = Ok r <->
+    Forall (known_passes sch) known /\ r = last_rev known found.
+  Proof.
+    induction known as [|[j c] t IH]; intros found r; cbn [check_known last_rev fold_left].
+    - split; [intros H; injection H as <-; split; [constructor|reflexivity]|intros [_ ->]; reflexivity].
+    - destruct (nth_error sch j) as [ts|] eqn:En.
+      2:{ split; [discriminate|]. intros [H _]. inversion H as [|? ? [t0 [P _]] _]; subst. cbn in P. congruence. }
+      destruct (is_type c (cs_type ts)) eqn:Et; cbn [negb].
+      2:{ split; [discriminate|]. intros [H _]. inversion H as [|? ? [t0 [P [Q _]]] _]; subst. cbn in P, Q. congruence. }
+      destruct (schema_valid rx_match is_utf8 (cs_validators ts) c true) as [[|]|] eqn:Ev.
+      2,3: split; [discriminate|]; intros [H _]; inversion H as [|? ? [t0 [P [_ Q]]] _]; subst; cbn in P, Q;
+           assert (t0 = ts) by congruence; subst t0;
+           assert (X : schema_valid rx_match is_utf8 (cs_validators ts) c true = Some true) by (apply schema_valid_true; split; [reflexivity|exact Q]);
+           congruence.
+      apply schema_valid_true in Ev. destruct Ev as [_ Ev].
+      assert (Pc : known_passes sch (j, c)) by (exists ts; cbn; split; [exact En|split; assumption]).
+      rewrite IH. cbn [snd]. unfold last_rev. split; intros [A B]; (split; [|exact B]); [constructor; assumption|inversion A; assumption].
+  Qed.
+
+  (** the decision of blind issuance, for every schema, label policy, request and map of issuer-supplied
+      claims: signed exactly when the counts add up, the label policy holds, every issuer-supplied claim
+      passes the type check and all validators at its own position, a revocation claim is among them, its
+      identifier has not been revoked and the suite accepts the request's context *)
+  Theorem blind_sign_decision sch blindable s req known ctx_ok s' i :
+    blind_sign_credential rx_match is_utf8 idn sch blindable s req known ctx_ok = Ok (s', i) <->
+    (length req + length known = length sch)%nat /\ labels_ok blindable req (map fst known) [] = true /\
+    Forall (known_passes sch) known /\ last_rev known None = Some i /\
+    already_revoked s (idn i) = false /\ ctx_ok = true /\ s' = record s (idn i).
+  Proof.
+    unfold blind_sign_credential.
+    destruct (Nat.eqb_spec (length req + length known) (length sch)) as [Hl|Hl]; cbn [negb].
+    2:{ split; [discriminate|]. intros [H _]. contradiction. }
+    destruct (labels_ok blindable req (map fst known) []) eqn:Lp; cbn [negb].
+    2:{ split; [discriminate|]. intros [_ [H _]]. discriminate. }
+    destruct (check_known rx_match is_utf8 known sch None) as [[j|]| |] eqn:E.
+    - apply check_known_ok in E. destruct E as [Hc Hr].
+      destruct (already_revoked s (idn j)) eqn:A.
+      + split; [discriminate|]. intros [_ [_ [_ [Hi [Ha _]]]]]. rewrite <- Hr in Hi. injection Hi as <-. congruence.
+      + destruct ctx_ok.
+        * split.
+          -- intros H. injection H as <- <-. repeat split; try assumption; try reflexivity. symmetry; exact Hr.
+          -- intros [_ [_ [_ [Hi [_ [_ ->]]]]]]. rewrite <- Hr in Hi. injection Hi as <-. reflexivity.
+        * split; [discriminate|]. intros [_ [_ [_ [_ [_ [H _]]]]]]. discriminate.
+    - apply check_known_ok in E. destruct E as [Hc Hr].
+      split; [discriminate|]. intros [_ [_ [_ [Hi _]]]]. congruence.
+    - split; [discriminate|]. intros [_ [_ [Hc [Hi _]]]].
+      assert (X : check_known rx_match is_utf8 known sch None = Ok (Some i)) by (apply check_known_ok; split; [exact Hc|symmetry; exact Hi]).
+      congruence.
+    - split; [discriminate|]. intros [_ [_ [Hc [Hi _]]]].
+      assert (X : check_known rx_match is_utf8 known sch None = Ok (Some i)) by (apply check_known_ok; split; [exact Hc|symmetry; exact Hi]).
+      congruence.
+  Qed.
+
+  Theorem blind_sign_no_panic sch blindable s req known ctx_ok :
+    blind_sign_credential rx_match is_utf8 idn sch blindable s req known ctx_ok <> Panic.
+  Proof.
+    unfold blind_sign_credential. destruct (negb _); [discriminate|]. destruct (negb _); [discriminate|].
+    assert (H : forall k f, check_known rx_match is_utf8 k sch f <> Panic).
+    { induction k as [|[j c] t IH]; intros f; cbn [check_known]; [discriminate|].
+      destruct (nth_error sch j) as [ts|]; [|discriminate]. destruct (negb _); [discriminate|].
+      destruct (schema_valid rx_match is_utf8 (cs_validators ts) c true) as [[|]|]; try discriminate. apply IH. }
+    destruct (check_known rx_match is_utf8 known sch None) as [[j|]| |] eqn:E; try discriminate.
+    - destruct (already_revoked s (idn j)); [discriminate|]. destruct ctx_ok; discriminate.
+    - exfalso. exact (H _ _ E).
+  Qed.
+
+  (** the holder never gets to choose a value the issuer policy withholds: an accepted request names only
+      blindable labels, none of them supplied by the issuer, none twice *)
+  Lemma labels_ok_spec blindable known_labels req : forall seen,
+    labels_ok blindable req known_labels seen = true ->
+    (forall l, In l req -> In l blindable /\ ~ In l known_labels /\ ~ In l seen) /\ NoDup req.
+  Proof.
+    induction req as [|l t IH]; intros seen H; cbn [labels_ok] in H.
+    - split; [intros l []|constructor].
+    - repeat (apply andb_true_iff in H; destruct H as [H ?]).
+      match goal with X : labels_ok _ _ _ _ = true |- _ => destruct (IH _ X) as [I1 I2] end.
+      assert (Hin : forall (x : nat) L, existsb (Nat.eqb x) L = true <-> In x L).
+      { intros x L. rewrite existsb_exists. split; [intros [y [Hy E]]; apply Nat.eqb_eq in E; subst; exact Hy|intros Hx; exists x; split; [exact Hx|apply Nat.eqb_refl]]. }
+      split.
+      + intros x [<-|Hx].
+        * repeat split; [apply Hin; assumption| |]; intros C; apply Hin in C;
+            match goal with X : negb _ = true |- _ => rewrite C in X; discriminate X end.
+        * destruct (I1 x Hx) as [A [B C0]]. repeat split; [exact A|exact B|]. intros Hs. apply C0. right. exact Hs.
+      + constructor; [|exact I2]. intros Hx. destruct (I1 l Hx) as [_ [_ C0]]. apply C0. left. reflexivity.
+  Qed.
 End IssuanceP.
 
 (** CredentialSchema::new succeeds exactly for a non-empty duplicate-free label list containing every
